@@ -251,7 +251,7 @@ def _run_case(case, known):
                 continue
             with np.errstate(all='ignore'):
                 g = np.reshape(post.gradient_logpdf(x if d > 1 else x[0]), -1)
-            if not np.all(np.isfinite(g)) and float(G.kern.rbf.lengthscale[0]) ** 2 == 0.0:
+            if not np.all(np.isfinite(g)) and float(G.kern.rbf.lengthscale[0]) ** 2 < 1e-300:
                 # open finding D21: the optimiser collapsed the lengthscale to the GP library's lower clamp (its square underflows)
                 soft(P, known, 'C10:gradient-nan-at-collapsed-lengthscale',
                      '%s phase: gradient_logpdf(%r) = %r with RBF lengthscale %r; %s' % (phase, x.tolist(), g.tolist(), float(G.kern.rbf.lengthscale[0]), ctx))
@@ -306,6 +306,12 @@ def _run_case(case, known):
             rmu, rvar = G.predict(xq)
             rgmu, rgvar = G.predictive_gradients(xq)
             rgmu = rgmu[:, :, 0]
+            if float(G.kern.rbf.lengthscale[0]) ** 2 < 1e-300 and not (np.all(np.isfinite(mu)) and np.all(np.isfinite(var)) and np.all(np.isfinite(gmu)) and np.all(np.isfinite(gvar))):
+                # open finding D21, third symptom: the squared lengthscale is subnormal, -0.5 / lengthscale**2 is -inf and the fast path returns NaN
+                soft(P, known, 'C10:fast-path-nan-at-collapsed-lengthscale',
+                     'sampling-phase prediction / gradients at %r are not finite with RBF lengthscale %r (GPy gives mean %r, gradient %r); %s'
+                     % (x.tolist(), float(G.kern.rbf.lengthscale[0]), float(rmu[0, 0]), np.ravel(rgmu).tolist(), hctx))
+                continue
             sc = float(np.abs(gp.Y).max() + 1.0)
             amp, kscale = conditioning(G)
             if not (np.allclose(mu, rmu, rtol=1e-7, atol=(1e-9 + amp) * sc) and np.allclose(var, rvar, rtol=1e-7, atol=1e-9 * sc ** 2 + amp * kscale)):
